@@ -602,6 +602,18 @@ def gen_decode_inputs(ctx):
             texts.append(("mutated", mutate(rng, rng.choice(valid))))
         for _ in range(120 * mul):
             texts.append(("random-bytes", random_bytes(rng)))
+        if msg in LEGACY:
+            # legacy decoders accept only messages without the newer field: bias towards absent / empty
+            saved = MSGS[msg]
+            MSGS[msg] = saved[:-1] + [(saved[-1][0], saved[-1][1], saved[-1][2], [b""])]
+            for _ in range(150 * mul):
+                label, t = structured(rng, msg)
+                out.append((LEGACY[msg], "legacy-" + label, t))
+            MSGS[msg] = saved[:-1]
+            for _ in range(100 * mul):
+                label, t = structured(rng, msg)
+                out.append((LEGACY[msg], "legacy-nofield-" + label, t))
+            MSGS[msg] = saved
         for label, t in texts:
             if msg == "cpr":
                 if label in ("random-bytes",) and rng.random() < 0.5:
@@ -646,6 +658,13 @@ def gen_encode_lines(ctx):
             add(both + "cpr %s %s %s" % (X(pick(STRS)), X(pick(NATV, 0.85)), X(pick(FPS, 0.9))), both + "cpr")
         for _ in range(150 * mul):
             add(both + "cps %s %s" % (X(pick(STRS, 0.7)), X(pick(STRS, 0.7))), both + "cps")
+    if ctx.tier == "thorough":
+        # a few long fields (the shared OCaml runner is quadratic in the line length, so only a few)
+        bigs = "\u00e9\u2713x\"\\\n" * 500
+        big = bigs.encode("utf-8")
+        add("rppr %s x x 8 %s" % (X(big), X(bigs[:400].encode("utf-8"))), "rppr-long")
+        add("rar %s %s" % (X(big), X(b"s")), "rar-long")
+        add("rcps %s x" % X(big), "rcps-long")
     # exhaustive small scope: NAT names x types x sid presence; fingerprints; status values
     for nat in NATV:
         for ty in TYPES:
